@@ -6,3 +6,4 @@ CONSTANTS
   Level = 1
   MaxLen = 2
   MaxIter = 2
+  Pre = 0
